@@ -9,11 +9,11 @@ PID = "C11"
 def check(tier):
     rep = Reporter(PID, tier)
     pvh = build_harness()
-    cfg = "MC_PongoLoader_q.cfg" if tier == "quick" else "MC_PongoLoader_t.cfg"
     lines = []
-    res = run_tlc("MC_PongoLoader", cfg, timeout=3000, deadlock=False, vector_sink=lambda o: lines.append(json.dumps(o)))
-    require_model_ok(res, cfg)
-    rep.add_tlc(cfg, res)
+    for cfg in ["MC_PongoLoader_q.cfg" if tier == "quick" else "MC_PongoLoader_t.cfg", "MC_PongoLoader_hard.cfg"]:
+        res = run_tlc("MC_PongoLoader", cfg, timeout=3000, deadlock=False, vector_sink=lambda o: lines.append(json.dumps(o)))
+        require_model_ok(res, cfg)
+        rep.add_tlc(cfg, res)
     r = run_harness(pvh, ["c11-replay"], stdin_text="\n".join(lines) + "\n", timeout=3000)
     for v in r["violations"]:
         rep.violation(v["key"], v["detail"])
